@@ -241,7 +241,8 @@ def add_master(c, port, name, UA, lane, init_byte, h, Qw=3, Qr=3, with_last=True
     spec_next = lambda f: If_(And(acc(f), is_w(f), hit(f), f(h.m_en) == 1), f(h.m_byte), G(f, "spec"))
     c.ghost(name + ".spec", 8, init_byte, spec_next)
     if port.mode != "write":
-        c.assume(name + ".read_data_always_accepted", lambda f: f.b(port.rdata.ready))
+        if port.rdata.ready in c.tr.allsigs:          # the crossbar never looks at rdata.ready: nothing to assume there
+            c.assume(name + ".read_data_always_accepted", lambda f: f.b(port.rdata.ready))
         rret = lambda f: f.b(port.rdata.valid)
         rq = Queue(c, name + ".rq", Qr, {"hit": 1, "exp": 8},
                    push=lambda f: And(acc(f), Not(is_w(f))),
